@@ -10,6 +10,8 @@ use vcore::alloc::{peak_since, reset_peak};
 use vcore::codec::*;
 use vcore::layout::*;
 use vcore::report::*;
+use vcore::tree::*;
+use zvt_builder::Tag;
 use zvt_builder::{encoding, ZVTError, ZvtSerializer};
 
 #[global_allocator]
@@ -286,13 +288,139 @@ fn main() {
                     acc.violation(Violation { key: format!("{key}/alloc"), detail: format!("struct {} [{layout}]\nbytes {}\ndeserialising allocated {peak} bytes", e.name, hex_short(&want)), replay: json!({"key": format!("{key}/alloc")}), rank: want.len() as u64 });
                 }
             }
+            // (3) tagged groups of the generated structs: any order, duplicates and missing mandatory
+            //     fields reported (the derive macro's part of C13, on layouts no shipped packet uses)
+            if codec.canonical(ty, &v).is_some() {
+                if let Ok((bytes, spans)) = codec.encode_mapped(ty, &v) {
+                    let nodes = build(&bytes, &spans);
+                    if render(ty, &nodes).as_deref() == Some(&bytes[..]) {
+                        for (lp, under_rep) in levels(&nodes) {
+                            let lvl = level(&nodes, &lp).to_vec();
+                            let runs = tagged_runs(&lvl);
+                            if runs.is_empty() {
+                                continue;
+                            }
+                            let first_tagged = runs[0].0;
+                            let n = runs.len();
+                            let mk = |edited: Vec<Node>| -> Option<Vec<u8>> {
+                                let mut t = nodes.clone();
+                                *level_mut(&mut t, &lp) = edited;
+                                render(ty, &t)
+                            };
+                            if (2..=4).contains(&n) {
+                                let mut orders: Vec<Vec<usize>> = vec![];
+                                fn perms(cur: &mut Vec<usize>, n: usize, out: &mut Vec<Vec<usize>>) {
+                                    if cur.len() == n {
+                                        out.push(cur.clone());
+                                        return;
+                                    }
+                                    for i in 0..n {
+                                        if !cur.contains(&i) {
+                                            cur.push(i);
+                                            perms(cur, n, out);
+                                            cur.pop();
+                                        }
+                                    }
+                                }
+                                perms(&mut vec![], n, &mut orders);
+                                for ord in orders.into_iter().skip(1) {
+                                    let mut edited: Vec<Node> = lvl[..first_tagged].to_vec();
+                                    for &r in &ord {
+                                        let (s0, l0) = runs[r];
+                                        edited.extend_from_slice(&lvl[s0..s0 + l0]);
+                                    }
+                                    let Some(input) = mk(edited) else { continue };
+                                    if !matches!(codec.decode(ty, &input), Ok((ref rv, used)) if *rv == v && used == input.len()) {
+                                        continue;
+                                    }
+                                    acc.count("cases", 1);
+                                    acc.count("calls", 1);
+                                    acc.count("permutations", 1);
+                                    watch_tick();
+                                    match guarded(|| (e.roundtrip)(&v, &input)) {
+                                        Ok(Ok((true, 0, _))) => acc.count("perm_ok", 1),
+                                        other => acc.violation(Violation {
+                                            key: format!("{key}/perm={ord:?}@{lp:?}"),
+                                            detail: format!("struct {} [{layout}]\nvalue {dbg}\nbytes {} with the tagged groups of level {lp:?} reordered as {ord:?}: {}\ngenerated deserialiser returned {other:?} (expected the same value)", e.name, hex_short(&want), hex_short(&input)),
+                                            replay: json!({"key": format!("{key}/perm={ord:?}@{lp:?}")}),
+                                            rank: want.len() as u64,
+                                        }),
+                                    }
+                                }
+                            }
+                            if under_rep {
+                                continue;
+                            }
+                            for &(s0, l0) in &runs {
+                                if l0 != 1 || lvl[s0].repeated {
+                                    continue;
+                                }
+                                let t = lvl[s0].tagnum.unwrap();
+                                for pos in 0..=n {
+                                    let at = if pos < n { runs[pos].0 } else { lvl.len() };
+                                    let mut edited = lvl.clone();
+                                    edited.insert(at, lvl[s0].clone());
+                                    let Some(input) = mk(edited) else { continue };
+                                    // a greedy field in front swallows the copy: only where the format itself sees a duplicate
+                                    if codec.decode(ty, &input) != Err(RefErr::Duplicate(t)) {
+                                        continue;
+                                    }
+                                    acc.count("cases", 1);
+                                    acc.count("calls", 1);
+                                    acc.count("duplicates", 1);
+                                    watch_tick();
+                                    match guarded(|| (e.roundtrip)(&v, &input)) {
+                                        Ok(Err(ZVTError::DuplicateTag(Tag(x)))) if x == t => acc.count("dup_reported", 1),
+                                        other => acc.violation(Violation {
+                                            key: format!("{key}/dup={t:x}@{pos}@{lp:?}"),
+                                            detail: format!("struct {} [{layout}]\nvalue {dbg}\ngroup with tag {t:#x} duplicated at position {pos} of level {lp:?}: {}\ngenerated deserialiser returned {other:?} (expected DuplicateTag(Tag({t})))", e.name, hex_short(&input)),
+                                            replay: json!({"key": format!("{key}/dup={t:x}@{pos}@{lp:?}")}),
+                                            rank: want.len() as u64,
+                                        }),
+                                    }
+                                }
+                            }
+                            let mand: Vec<usize> = runs.iter().filter(|(s0, _)| lvl[*s0].mandatory).map(|(s0, _)| *s0).collect();
+                            for mask in 1u32..(1 << mand.len().min(4)) {
+                                let sub: Vec<usize> = mand.iter().enumerate().filter(|(i, _)| mask & (1 << i) != 0).map(|(_, s0)| *s0).collect();
+                                let mut tags: Vec<u16> = sub.iter().map(|s0| lvl[*s0].tagnum.unwrap()).collect();
+                                tags.sort();
+                                let edited: Vec<Node> = lvl.iter().enumerate().filter(|(i, _)| !sub.contains(i)).map(|(_, nd)| nd.clone()).collect();
+                                let Some(input) = mk(edited) else { continue };
+                                if codec.decode(ty, &input) != Err(RefErr::Missing(tags.clone())) {
+                                    continue;
+                                }
+                                acc.count("cases", 1);
+                                acc.count("calls", 1);
+                                acc.count("removals", 1);
+                                watch_tick();
+                                match guarded(|| (e.roundtrip)(&v, &input)) {
+                                    Ok(Err(ZVTError::MissingRequiredTags(got))) if got.iter().map(|t| t.0).collect::<Vec<_>>() == tags => acc.count("missing_reported", 1),
+                                    other => acc.violation(Violation {
+                                        key: format!("{key}/remove={tags:x?}@{lp:?}"),
+                                        detail: format!("struct {} [{layout}]\nvalue {dbg}\nmandatory groups {tags:x?} removed from level {lp:?}: {}\ngenerated deserialiser returned {other:?} (expected MissingRequiredTags({tags:?}))", e.name, hex_short(&input)),
+                                        replay: json!({"key": format!("{key}/remove={tags:x?}@{lp:?}")}),
+                                        rank: want.len() as u64,
+                                    }),
+                                }
+                            }
+                        }
+                    }
+                }
+            }
             if acc.samples.len() < 3 && ty.fields.len() >= 2 {
                 acc.sample(json!({"struct": e.name, "family": e.family, "layout": layout, "value": dbg, "bytes": hex_short(&want)}));
             }
         }
         watch_exit();
     });
-    for (c, w) in [("encode_agreed", "generated serialisers agreed with the declared layout"), ("decode_agreed", "generated deserialisers inverted the serialisers")] {
+    for (c, w) in [
+        ("encode_agreed", "generated serialisers agreed with the declared layout"),
+        ("decode_agreed", "generated deserialisers inverted the serialisers"),
+        ("perm_ok", "reordered tagged groups of generated structs decoded to the same value"),
+        ("dup_reported", "duplicated tags of generated structs reported"),
+        ("missing_reported", "missing mandatory tags of generated structs reported"),
+    ] {
         if acc.get(c) > 0 {
             acc.witness(w);
         }
@@ -305,9 +433,15 @@ fn main() {
         transitions: acc.get("calls"),
         traces_validated: cases,
         distinct_nontrivial: acc.get("decode_agreed"),
-        rule: format!("{programs} struct definitions enumerated at build time over the attribute grammar (all one-field structs over position {{positional, one-byte BMP, 1Fxx BMP, TLV}} x length {{none, Fixed, LLVAR, LLLVAR, TLV}} x 17 type/encoding kinds and 6 nested structs x {{bare, Option, Vec}}; all ordered pairs over a 24-kind alphabet and all ordered triples over an 8-kind alphabet respecting 'untagged before tagged'; nesting depth 3 through every length style and wrapper; an 8-field struct with all 256 presence patterns; every one-byte and selected two-byte tag numbers; a cross-section with zvt_control_field) compiled with the real derive macro x the product of small per-field value alphabets. Oracle: generated serialiser == reference codec on the emitted layout description for every encodable value; for canonical values the generated deserialiser returns the natively built value and no remainder; decoding always under the panic/allocation/progress monitors. distinct_nontrivial = canonical values decoded back"),
+        rule: format!("{programs} struct definitions enumerated at build time over the attribute grammar (all one-field structs over position {{positional, one-byte BMP, 1Fxx BMP, TLV}} x length {{none, Fixed, LLVAR, LLLVAR, TLV}} x 17 type/encoding kinds and 6 nested structs x {{bare, Option, Vec}}; all ordered pairs over a 24-kind alphabet and all ordered triples over an 8-kind alphabet respecting 'untagged before tagged'; nesting depth 3 through every length style and wrapper; an 8-field struct with all 256 presence patterns; every one-byte and selected two-byte tag numbers; a cross-section with zvt_control_field) compiled with the real derive macro x the product of small per-field value alphabets. Oracle: generated serialiser == reference codec on the emitted layout description for every encodable value; for canonical values the generated deserialiser returns the natively built value and no remainder; decoding always under the panic/allocation/progress monitors; for canonical values additionally all permutations of the tagged groups of every level (2..4 groups) must decode to the same value, every duplicated non-repeated group must be reported as DuplicateTag and every removed subset of mandatory groups as MissingRequiredTags (C13 on generated structs). distinct_nontrivial = canonical values decoded back"),
         exhaustive: true,
-        required_witnesses: vec!["generated serialisers agreed with the declared layout".into(), "generated deserialisers inverted the serialisers".into()],
+        required_witnesses: vec![
+            "generated serialisers agreed with the declared layout".into(),
+            "generated deserialisers inverted the serialisers".into(),
+            "reordered tagged groups of generated structs decoded to the same value".into(),
+            "duplicated tags of generated structs reported".into(),
+            "missing mandatory tags of generated structs reported".into(),
+        ],
         assumptions: vec![
             "struct definitions are enumerated over a finite grammar (<= 3 free field kinds, fixed tag numbers except in the tag sweep), not sampled".into(),
             "the macro's documented assumption 'untagged fields before tagged fields' is respected".into(),
